@@ -86,6 +86,12 @@ func (fg *FG) run() (err error) {
 	}
 	fg.modset = fg.evalModifies(c, env)
 	fg.cover("cover:requires", "true")
+	if !c.Assumed && len(c.TypeFacts) > 0 {
+		// static type facts the function's own contract states about the program (e.g. that its receiver
+		// type still implements the interface through which a framework finds the method)
+		fg.curBlock = 0
+		fg.typeFacts(c, env, nil, "entry")
+	}
 
 	order := fg.order()
 	for _, b := range order {
@@ -1153,7 +1159,8 @@ func (fg *FG) localResolverAt(at *ssa.BasicBlock, h *ssa.BasicBlock, st *State) 
 						_ = id
 					}
 					if x.Object() != nil && x.Object().Name() == name {
-						if _, isVar := x.Object().(*types.Var); isVar {
+						// (a selector s.m also leaves a debug reference, for the FIELD object m: not a local)
+						if vo, isVar := x.Object().(*types.Var); isVar && !vo.IsField() {
 							consider(x.X, b, i, x.IsAddr)
 						}
 					}
